@@ -2,3 +2,4 @@ pub mod conway;
 pub mod dsym;
 pub mod groups;
 pub mod pi1;
+pub mod three_d;
